@@ -287,6 +287,14 @@ fn check_api_one(b: &Built, rec: &Recorder, c: &mut Counters) -> u64 {
                 }
             }
         }
+        // cutoffs at and beyond every representable distance (a cutoff is a numeric argument too: casts / arithmetic on it)
+        for weighted in [false, true] {
+            for with_paths in [false, true] {
+                for cutoff in [f64::INFINITY, f64::MAX, 1.9e19] {
+                    cx.call("single_source", format!("{weighted}, {x:?}, None, Some({cutoff:e}), false, {with_paths}"), a, || r(dijkstra::single_source(g, weighted, x, None, Some(cutoff), false, with_paths)));
+                }
+            }
+        }
         // single-name node_names arguments of the clustering functions
         let one = [x];
         for weighted in [false, true] {
@@ -390,6 +398,11 @@ fn check_api_one(b: &Built, rec: &Recorder, c: &mut Counters) -> u64 {
     cx.call("ensure_undirected", String::new(), false, || r(g.ensure_undirected()));
     cx.call("ensure_not_multi_edges", String::new(), false, || r(g.ensure_not_multi_edges()));
     cx.call("ensure_weighted", String::new(), false, || r(g.ensure_weighted()));
+    for weighted in [false, true] {
+        for cutoff in [f64::INFINITY, f64::MAX] {
+            cx.call("all_pairs", format!("{weighted}, None, Some({cutoff:e}), false, true"), false, || r(dijkstra::all_pairs(g, weighted, None, Some(cutoff), false, true)));
+        }
+    }
     // shortest paths, all pairs
     for weighted in [false, true] {
         for first_only in [false, true] {
